@@ -11,6 +11,8 @@ import json
 from common import *
 
 IMPORTS = "Cluster.Remote"
+# work-directory tag: unique per process, so that concurrent runs (quick + thorough) do not share files
+TAG = "C20x%d" % os.getpid()
 
 
 # --------------------------------------------------------------------------------------
@@ -510,7 +512,7 @@ def run(chk):
     for c, it in zip(pcases, impl_t):
         outs = "[" + "; ".join(show_term(step[1]) if isinstance(step, tuple) else "[]" for step in it) + "]"
         exprs.append(f"check_C20_proxy {proxy_events(c)} {outs}")
-    model = coq_eval("C20p", IMPORTS, exprs)
+    model = coq_eval(TAG + "p", IMPORTS, exprs)
     for i, c in enumerate(pcases):
         mv = parse_term(model[i])
         iv = impl_t[i]
@@ -543,7 +545,7 @@ def run(chk):
         impl = run_harness(build, "eng_remote", [sess_line(c) for c in scases], shards=4)
     except RuntimeError as e:
         return infrastructure_failure(chk.prop, "session engine did not complete: " + str(e)[-1500:])
-    model = coq_eval("C20s", IMPORTS, [sess_model(c) for c in scases])
+    model = coq_eval(TAG + "s", IMPORTS, [sess_model(c) for c in scases])
     for i, c in enumerate(scases):
         mv = canon_u(parse_term(model[i]))
         iv = canon_u(parse_term(impl[i]))
@@ -590,7 +592,7 @@ def run(chk):
         q = "[" + "; ".join(b(x) for x in c["quiescent"]) + "]"
         ex = "[" + "; ".join(map(str, c["expect"])) + "]"
         exprs.append(f"check_C20 {b(c['strict'])} {b(closed)} {ex} {q} ({out})")
-    verdicts = coq_eval("C20n", IMPORTS, exprs)
+    verdicts = coq_eval(TAG + "n", IMPORTS, exprs)
     n_closed = 0
     for c, o, v, out in zip(ncases, obs, verdicts, impl):
         chk.coverage["evaluations"] += 1
@@ -605,7 +607,7 @@ def run(chk):
         distinct.add(c["line"].split("|", 1)[1])
         if v != "true":
             # which clause
-            parts = coq_eval("C20n1", IMPORTS, [
+            parts = coq_eval(TAG + "n1", IMPORTS, [
                 f"(let o := ({out}) in (check_fifo {'true' if c['strict'] else 'false'} o, "
                 f"check_calls {'true' if c['strict'] else 'false'} (fun rid => memN rid [{'; '.join(map(str, c['expect']))}]) o, "
                 f"map check_snap (o_snaps o), check_stale {'false' if last_up(o) else 'true'} o))"], shards=1)
